@@ -729,7 +729,14 @@ pub fn cmd_spec(args: &[String]) {
             let f = if class_mode && r.chance(2, 5) { *r.pick(&["v", "iv", "iv"]) } else { *r.pick(&flagsets) };
             let depth = if r.chance(1, 5) { 3 } else { 1 + r.below(2) as u32 };
             let mut g = G { r: &mut r, unicode: f.contains('u'), vmode: f.contains('v'), ngroups_seen: 0, names_seen: vec![] };
-            if class_mode && g.vmode && g.r.chance(2, 3) {
+            if class_mode && g.r.chance(1, 8) {
+                // a single literal character or the dot: the node the parser builds for it is compared with the
+                // models of Parser::char_node / the dot (J line)
+                const ATOMS: &[u32] = &[0x61, 0x41, 0x6B, 0x4B, 0x212A, 0x73, 0x53, 0x17F, 0xDF, 0x1E9E, 0xE9, 0xC9, 0x3C3, 0x3C2, 0x3A3, 0x1C4, 0x1C5, 0x1C6, 0x130, 0x131, 0x49, 0x69,
+                                       0x31, 0x5F, 0x1F600, 0x10400, 0x10428, 0x3B9, 0x1FBE, 0x345, 0x2126, 0x3C9, 0x1E61, 0x1E9B, 0xFF21, 0x7F, 0x80, 0xFFFF];
+                let a = if g.r.chance(1, 6) { Ast::Any } else { Ast::Char(*g.r.pick(ATOMS)) };
+                (Ast::Seq(vec![Ast::Bol, a, Ast::Eol]), f)
+            } else if class_mode && g.vmode && g.r.chance(2, 3) {
                 let d = 1 + g.r.below(3) as u32;
                 let e = g.ve(d, true);
                 (Ast::Seq(vec![Ast::Bol, Ast::VClass(e), Ast::Eol]), f)
@@ -812,7 +819,7 @@ pub fn cmd_spec(args: &[String]) {
         // class mode, v-mode class expression: the IR the parser builds, for the model of the class set evaluation
         if class_mode {
             if let Ast::Seq(v) = &ast {
-                if let (3, Some(Ast::VClass(_))) = (v.len(), v.get(1)) {
+                if let (3, Some(Ast::VClass(_) | Ast::Char(_) | Ast::Any)) = (v.len(), v.get(1)) {
                     if let Ok(ire) = regress::backends::try_parse(pat.chars().map(|c| c as u32), regress::Flags::from(f)) {
                         let mut t = String::new();
                         crate::dump::node_tokens(&ire.node, &mut t);
